@@ -97,6 +97,14 @@ impl Archive {
         if self.input_mode {
             let file = File::open(path).context("Failed to open archive for reading")?;
             self.reader = Some(BufReader::new(file.try_clone()?));
+            #[cfg(ragc_verif)]
+            {
+                // buffer capacity becomes a simulator knob (replaces the reader created above)
+                self.reader = Some(BufReader::with_capacity(
+                    crate::verif::bufreader_cap(),
+                    file.try_clone()?,
+                ));
+            }
             self.file = Some(file);
             self.deserialize()?;
         } else {
